@@ -395,6 +395,12 @@ def footprint(entry, bodies):
                         indirect.add('%s: %s' % (name, pp(c)))
                     except Unsupported:
                         indirect.add('%s: ?' % name)
+            if k == 'AtomicExpr' and len(n.get('inner', [])) >= 3:
+                # atomic store / exchange / read-modify-write (a plain atomic load has two operands): a store through its pointer
+                try:
+                    writes.add('%s: atomic %s' % (name, pp(n['inner'][0])))
+                except Unsupported:
+                    writes.add('%s: atomic ?' % name)
             lhs = None
             if k == 'BinaryOperator' and n.get('opcode') == '=':
                 lhs = n['inner'][0]
